@@ -67,6 +67,12 @@ claim("C09", "Byte-level container independence is decided symbolically: a read 
       "parser from the detector outcomes only, Roland/AKAI decided on the unwrapped stream; the mdf/mdx signature tests react only to signature bytes "
       "(one symbolic byte per position).", XT, "DESIGN.md 2/C09")
 
+claim("C04", "Decided on the repository's own contribution to the file layout: the live Rebuild expressions for block align / byte rate on symbolic rate and "
+      "channels; chunk order fmt,[smpl],data from the real encoder for every presence combination; one loop header per region with cue ids and the live "
+      "loop-count Rebuild for symbolic loop tables; 16 / 36+24n byte struct sizes from the live structs; whole-frame blocks (C12, C03 obligations). The "
+      "length prefixes themselves are written by construct.Prefixed (trusted) and are cross-checked by building real files for solver-chosen shapes and "
+      "walking them with an independent RIFF reader and stdlib wave.", XT, "DESIGN.md 2/C04")
+
 _pending = "check not built yet in this session (work in progress; see DESIGN.md section 2 for the planned obligations)"
 for _p in ["C01","C02","C03","C04","C05","C06","C07","C09","C10","C11","C12","C13","C14","C15","C16","C17","C18","C19","C20"]:
     if _p not in CHECKS:
